@@ -182,6 +182,14 @@ func newHist(p *Program, faulty bool, out *kernel.Outcome) *hist {
 			if ti.Columns[j].Kind == "fk" {
 				ti.fks = append(ti.fks, &ti.Columns[j])
 			}
+			if ti.Columns[j].Kind == "date" {
+				if f, ok := ti.typ.FieldByName(ti.Columns[j].Field); ok && len(f.Index) == 1 {
+					if dateColumns[ti.typ] == nil {
+						dateColumns[ti.typ] = map[int]bool{}
+					}
+					dateColumns[ti.typ][f.Index[0]] = true
+				}
+			}
 		}
 		h.tables = append(h.tables, ti)
 		h.byName[ti.Name] = ti
